@@ -373,6 +373,13 @@ def object_case(c):
     bs, eta = ac.real_spaces(c['npts'], c['degrees'], uniform=c['uniform'], rng=rng, dom=c.get('dom'))
     const = ac.real_constants(iota=c['iota'], slope=c['slope'])
     lay = ac.real_layout('flux_surface', [0, 3, 1, 2], eta)
+    if c.get('almost_node'):
+        # dt such that the foot of velocity j lies `delta` cells beside the node `cells` cells away (b_z = 1: no twist)
+        j, cells, delta = c['almost_node']
+        j = j % len(eta[3])
+        if eta[3][j] == 0.0:
+            j = (j + 1) % len(eta[3])
+        c = dict(c, dt=-(cells + delta) * float(eta[2][2] - eta[2][1]) / float(eta[3][j]), almost_node=[j, cells, delta])
     obj = FluxSurfaceAdvection(eta, [bs[1], bs[2]], lay, c['dt'], const)
     # the inputs of _getLagrangePts, by the same IEEE operations as the code
     r = eta[0]
@@ -390,6 +397,8 @@ def object_case(c):
         rIdx, vIdx = rng.randrange(len(r)), rng.randrange(len(eta[3]))
         if t == 1:
             vIdx = rng.choice([0, len(eta[3]) - 1])                         # the longest displacement of the object
+        if t == 2 and c.get('almost_node'):
+            vIdx = c['almost_node'][0]                                      # the foot that lies just beside a node
         if t == 0:
             f = np.full((nq, nz), 0.75)                                    # constants
         else:
@@ -438,6 +447,15 @@ def gen_object_cases(chk):
             # no twist (bz = 1): zDist = -v*dt is an exact multiple of dz for every v
             case.update(degrees=[3, degq, 3, 1], npts=[npts[0], nq, nz, 9], iota=0.0, slope=None, uniform=[True, uni[1], True, True],
                         dt=rng.choice([-1, 1]) * 0.5 * rng.randint(1, nz),
+                        dom=[[0.1, 14.5], [0.0, 2 * math.pi], [0.0, 0.5 * nz], [-4.0, 4.0]])
+        if k % 5 == 3:
+            # the foot of one velocity lies a tiny fraction of a cell beside a node, many cells away (no twist, b_z = 1):
+            # the exact-node branch of the Lagrange table must not be taken for a neighbour of the node
+            j = rng.choice([0, 1, 2, 6, 7, 8])
+            cells = rng.choice([3, nz + 2, 10 * nz, 25 * nz + 1])
+            delta = rng.choice([1e-7, 1e-6, 1e-5] if cells < 200 else [1e-7, 1e-5, 2e-3])
+            case.update(degrees=[3, degq, 3, 1], npts=[npts[0], nq, nz, 9], iota=0.0, slope=None, uniform=[True, uni[1], True, True],
+                        dt=1.0, almost_node=[int(j), int(cells), delta],
                         dom=[[0.1, 14.5], [0.0, 2 * math.pi], [0.0, 0.5 * nz], [-4.0, 4.0]])
         cases.append(case)
     return cases
@@ -642,7 +660,7 @@ def run():
                         break
             if bad:
                 # an exception about the Fraction stand-in means the exact run could not execute the code: the correspondence broke
-                chk.violation('_getLagrangePts(exact):outcome', bad, replay, no_input=('model answers' in bad or "'Fraction' object" in bad))
+                chk.violation('_getLagrangePts(exact):outcome', bad, replay, no_input=('model answers' in bad or "'Fraction' object" in bad or 'ufunc' in bad or 'not supported for the input types' in bad))
             continue
         same = False
         if isinstance(impl, str) and impl.startswith('ok') and m[0].startswith('ok'):
